@@ -489,4 +489,51 @@ theorem ownLess_eq_queue_model (rootMax : ORes) (anc : List ORes) (rank : Child 
   · rw [Bool.eq_iff_iff, ownLess_fairPrio_iff, qLessFairPrio_iff', ← cPendingGt_eq rank l r, ← hlt, ← heq]; rfl
   · rw [Bool.eq_iff_iff, ownLess_fifo_iff, qLessPrio_iff]; rfl
 
+/-! ### the priority key of a queue -/
+
+theorem clampPrio_bounds (x : Int) : minPrio ≤ clampPrio x ∧ clampPrio x ≤ maxPrio := by
+  unfold clampPrio minPrio maxPrio; split <;> (try split) <;> omega
+
+theorem clampPrio_mono {x y : Int} (h : x ≤ y) : clampPrio x ≤ clampPrio y := by
+  unfold clampPrio minPrio maxPrio
+  split <;> split <;> (try split) <;> (try split) <;> omega
+
+theorem clampPrio_cases (x : Int) :
+    (x > maxPrio → clampPrio x = maxPrio) ∧ (x < minPrio → clampPrio x = minPrio) ∧
+    (minPrio ≤ x → x ≤ maxPrio → clampPrio x = x) := by
+  unfold clampPrio minPrio maxPrio
+  refine ⟨fun h => ?_, fun h => ?_, fun h1 h2 => ?_⟩ <;> split <;> (try split) <;> omega
+
+theorem priorityValue_default (offset prio : Int) (hp : prio ≠ minPrio) :
+    priorityValue false offset prio = clampPrio (offset + prio) := by
+  unfold priorityValue; simp [hp]
+
+theorem priorityValue_mono (o₁ p₁ o₂ p₂ : Int) (h2 : p₂ ≠ minPrio) (h : o₁ + p₁ ≤ o₂ + p₂) :
+    priorityValue false o₁ p₁ ≤ priorityValue false o₂ p₂ := by
+  rw [priorityValue_default o₂ p₂ h2]
+  by_cases h1 : p₁ = minPrio
+  · have : priorityValue false o₁ p₁ = minPrio := by unfold priorityValue; simp [h1]
+    rw [this]; exact (clampPrio_bounds _).1
+  · rw [priorityValue_default o₁ p₁ h1]; exact clampPrio_mono h
+
+theorem maxPriority_foldl (items : List Int) (acc : Int) :
+    acc ≤ items.foldl (fun curr v => max v curr) acc ∧ (∀ v ∈ items, v ≤ items.foldl (fun curr v => max v curr) acc) ∧
+    (items.foldl (fun curr v => max v curr) acc = acc ∨ items.foldl (fun curr v => max v curr) acc ∈ items) := by
+  induction items generalizing acc with
+  | nil => simp
+  | cons x t ih =>
+    simp only [List.foldl_cons, List.mem_cons]
+    obtain ⟨h1, h2, h3⟩ := ih (max x acc)
+    refine ⟨by omega, ?_, ?_⟩
+    · intro v hv
+      rcases hv with rfl | hv
+      · omega
+      · exact h2 v hv
+    · rcases h3 with h3 | h3
+      · rw [h3]
+        by_cases hx : x ≤ acc
+        · left; omega
+        · right; left; omega
+      · right; right; exact h3
+
 end Yk
